@@ -42,6 +42,7 @@ IsFinal(e) == \/ (e.k = KEF /\ prof.passes = 0 /\ phase = "fwd")
 NextClauses(o, e) ==
        C("C09.stop_after_exhausted", exhausted => o = OStop)
   \cup C("C09.premature_stop", ~exhausted => o = ONext)
+  \cup C("C02.incomplete", (~exhausted /\ phase # "done") => o = ONext)   \* the stream ends before its structure is complete
   \cup C("C10.ef_after_finalize", needEF => (o = ONext /\ e.k = KEF))
   \cup (IF o = ONext
         THEN      C("C18.shape", WellFormed(e))
